@@ -383,3 +383,12 @@ impl Backoff {
     #[verifier::external_body]
     pub fn spin(&self) { unimplemented!() }
 }
+
+// a few Option combinators vstd does not specify (T1 extension)
+pub assume_specification<T, U, F: FnOnce(T) -> U> [Option::<T>::map_or] (o: Option<T>, default: U, f: F) -> (r: U)
+    requires o matches Some(t) ==> f.requires((t,)),
+    ensures o is None ==> r == default, o matches Some(t) ==> f.ensures((t,), r);
+pub assume_specification<T: Ord> [core::cmp::max] (a: T, b: T) -> (r: T)
+    ensures r == a || r == b;
+pub assume_specification<T: Ord> [core::cmp::min] (a: T, b: T) -> (r: T)
+    ensures r == a || r == b;
